@@ -301,6 +301,11 @@ func impliesLin(s *factSet, goal lin) bool {
 		return r
 	}
 	if refute(negate(goal)) {
+		if refute() {
+			// the facts themselves are contradictory: the point is unreachable (or a fact is wrong). The goal
+			// holds vacuously; the event is counted so that it shows up in the evidence
+			vacuousProofs++
+		}
 		return true
 	}
 	// sharpen with disequalities x - y != m: if x - y >= m is implied then x - y >= m+1 (and symmetrically)
@@ -356,3 +361,5 @@ func allIn(l lin, rel map[term]bool) bool {
 	}
 	return true
 }
+
+var vacuousProofs int
